@@ -53,6 +53,10 @@ def run(ctx):
         if hist and hist[2] == '-1': ctx.report('history-abort', 'the selector died during request history %s' % hist[1], {'history': hist[1]}); continue
         exp = None if (lam <= 0 or lam > 128) else ('Set80' if lam <= 80 else 'Set128')
         if exp is None:
+            # a rejected request ends in abort() (SIGABRT): no exit handlers run, no destructors, nothing is flushed on behalf of the caller
+            if d is None and not hist and line.split()[1:3] != ['ABORT', '6']:
+                ctx.report('selector-rejects-without-abort', 'lambda=%d is rejected, but not by aborting: the process %s (the documented behaviour is abort(): SIGABRT, no exit handlers)' % (
+                           lam, 'exited normally with status ' + line.split()[2] if line.split()[1] == 'EXIT' else 'ended with ' + ' '.join(line.split()[1:3])), {'lambda': lam, 'observed': line})
             if d is not None: ctx.report('selector-accepts', 'lambda=%d is accepted (should abort)' % lam, {'lambda': lam, 'observed': line})
             continue
         if d is None:
